@@ -40,6 +40,7 @@ DEFAULTS = {
     'nonpositive_spikes': (),  # spikes whose first-component features are all <= 0
     'n_loc': None,             # width of the feature tables (default min(n_channels, 3))
     'n_tloc': None,            # width of the template-feature tables (default min(n_templates, 2))
+    'ind_high': False,         # feature column table names the highest channel indices
     'ind_dtype': 'uint32',     # dtype of pc_feature_ind / template_feature_ind
     'amp_base': 1.0,           # amplitudes are amp_base + 0.25 * k (distinct per spike)
     'sparse_cols': None,       # explicit (n_templates, n_loc) column table (may contain -1)
@@ -74,6 +75,10 @@ def geometry(name, nc):
         pos = np.array([[0. if i < h else 200., 12. * (i if i < h else i - h) + (0 if i < h else 5)]
                         for i in range(nc)])
         shanks = np.array([0 if i < h else 1 for i in range(nc)], dtype=np.int32)
+    elif name == 'twoshank_close':   # two interleaved shanks 14 apart: the other shank's channels are
+        # among the nearest neighbours of every channel
+        pos = np.array([[14. * (i % 2), 20. * (i // 2) + 3. * (i % 2)] for i in range(nc)])
+        shanks = np.array([i % 2 for i in range(nc)], dtype=np.int32)
     elif name == 'col14':      # two columns, 14+ channels
         pos = np.array([[22. * (i % 2), 20. * (i // 2) + 7. * (i % 2)] for i in range(nc)])
         shanks = np.zeros(nc, dtype=np.int32)
@@ -203,7 +208,7 @@ def make_dataset(d, spec=None):
     save('channels.rawInd.npy' if alf else 'channel_map.npy', _vec(cmap, s['vec2d']))
     save('channels.localCoordinates.npy' if alf else 'channel_positions.npy', pos)
     if s['shanks'] != 'absent':
-        sh = shanks if s['shanks'] == 'two' or s['geometry'] == 'twoshank' else np.zeros(nc, np.int32)
+        sh = shanks if s['shanks'] == 'two' or s['geometry'].startswith('twoshank') else np.zeros(nc, np.int32)
         truth['channel_shanks'] = sh
         save('channels.shanks.npy' if alf else 'channel_shanks.npy', _vec(sh, s['vec2d']))
     else:
@@ -313,6 +318,8 @@ def make_dataset(d, spec=None):
             ind = np.zeros((nt, nloc), dtype=s['ind_dtype'])
             for t in range(nt):
                 ind[t] = np.roll(np.arange(nc), -t)[:nloc]
+                if s['ind_high']:
+                    ind[t] = [(nc - 1 - t - j) % nc for j in range(nloc)]
             truth['pc_feature_ind'] = ind
             save('pc_feature_ind.npy', ind)
         if rows is not None:
